@@ -46,7 +46,12 @@ def build(ctx, levels, names):
             x = ctx.real("L_" + str(name))
             ctx.assume(x > 0)
             L[name] = x
-        return 60000 / L[name]
+        b = 60000 / L[name]
+        if not isinstance(b, SymNum):  # concrete runs: the file stores a float32, so that is the tempo the file denotes
+            import struct
+
+            b = struct.unpack("<f", struct.pack("<f", b))[0]
+        return b
 
     h = dict(HDR)
     if names == "full-width-strings":
